@@ -75,14 +75,17 @@ AcroFormD == IF Catalog.t = "dict" THEN Deref(Get(Catalog, KI_AcroForm)) ELSE No
 RootFields == LET f == IF AcroFormD.t = "dict" THEN Deref(Get(AcroFormD, KI_Fields)) ELSE None IN IF f.t = "arr" THEN f.v ELSE <<>>
 FieldRefsNamed(cps) == {i \in 1..Len(RootFields) : LET d == Deref(RootFields[i]) IN d.t = "dict" /\ TextIs(Get(d, KI_T), cps)}
 FlagBit(d, bit) == LET f == Get(d, KI_Ff) IN f.t = "int" /\ IsSmallInt(f) /\ (IntOf(f) \div bit) % 2 = 1   \* bit = 2^(position-1)
+\* a field filled after assembly (Document::fill_field) carries the filled text as its value
+HasVal(f) == Has(f, "fill") \/ Has(f, "value")
+ValOf(f) == IF Has(f, "fill") THEN f.fill ELSE f.value
 FieldOK(f, d) ==
-  CASE f.k = "text" -> IsName(Get(d, KI_FT), NI_Tx) /\ (Has(f, "value") => TextIs(Get(d, KI_V), f.value))
+  CASE f.k = "text" -> IsName(Get(d, KI_FT), NI_Tx) /\ (HasVal(f) => TextIs(Get(d, KI_V), ValOf(f)))
     [] f.k = "check" -> IsName(Get(d, KI_FT), NI_Btn) /\ ~FlagBit(d, 32768) /\ ~FlagBit(d, 65536)
                         /\ IsName(Get(d, KI_V), IF f.on THEN f.value ELSE NI_Off)
     [] f.k = "radio" -> IsName(Get(d, KI_FT), NI_Btn) /\ FlagBit(d, 32768) /\ ~FlagBit(d, 65536)
                         /\ (Has(f, "selected") => IsName(Get(d, KI_V), f.options[f.selected + 1]))
     [] f.k = "push" -> IsName(Get(d, KI_FT), NI_Btn) /\ FlagBit(d, 65536)
-    [] f.k = "combo" -> IsName(Get(d, KI_FT), NI_Ch) /\ FlagBit(d, 131072) /\ (Has(f, "value") => TextIs(Get(d, KI_V), f.value))
+    [] f.k = "combo" -> IsName(Get(d, KI_FT), NI_Ch) /\ FlagBit(d, 131072) /\ (HasVal(f) => TextIs(Get(d, KI_V), ValOf(f)))
                         /\ LET o == Deref(Get(d, KI_Opt)) IN o.t = "arr" /\ Len(o.v) = Len(f.options) /\ \A i \in 1..Len(o.v) : TextIs(Deref(o.v[i]), f.options[i])
     [] OTHER -> IsName(Get(d, KI_FT), NI_Ch) /\ ~FlagBit(d, 131072)
                 /\ LET o == Deref(Get(d, KI_Opt)) IN o.t = "arr" /\ Len(o.v) = Len(f.options) /\ \A i \in 1..Len(o.v) : TextIs(Deref(o.v[i]), f.options[i])
@@ -98,6 +101,28 @@ WidgetOf(entry, d, f) ==
   LET S == FieldRefsNamed(f.name) IN
   Cardinality(S) = 1 /\ LET root == RootFields[CHOOSE s \in S : TRUE]  par == Get(d, <<80, 97, 114, 101, 110, 116>>) IN
                         (par.t = "ref" /\ root.t = "ref" /\ par.n = root.n) \/ (entry.t = "ref" /\ root.t = "ref" /\ entry.n = root.n)
+
+\* ---- appearance streams of widgets (12.5.5): /AP /N names a form XObject; its content is lexed like a page's
+KI_AP == <<65, 80>>   KI_N == <<78>>   KI_BBox == <<66, 66, 111, 120>>   NI_Form == <<70, 111, 114, 109>>
+ApRefOf(d) == LET ap == Deref(Get(d, KI_AP)) IN IF ap.t = "dict" THEN Get(ap, KI_N) ELSE None
+WidgetAps == UNION {{ApRefOf(Deref(AnnotsOfPage(x)[i])).n : i \in {j \in 1..Len(AnnotsOfPage(x)) :
+                        LET d == Deref(AnnotsOfPage(x)[j]) IN d.t = "dict" /\ IsName(Get(d, KI_Subtype), NI_Widget) /\ ApRefOf(d).t = "ref"}} : x \in 1..Len(PageList)}
+ApPayloads == LET ns == SortSet(WidgetAps) IN [k \in 1..Len(ns) |-> [kind |-> "ap", n |-> ns[k], p |-> StreamPayload([t |-> "ref", n |-> ns[k], g |-> 0])]]
+ApOf(n) == LET S == {y \in 1..Len(subs) : subs[y].kind = "ap" /\ subs[y].n = n} IN IF S = {} THEN [ok |-> FALSE, items |-> <<>>] ELSE subs[CHOOSE y \in S : TRUE]
+\* the text an appearance shows: the strings of its Tj operators (and of the strings inside TJ arrays), WinAnsi bytes read as characters
+RECURSIVE Flatten(_)
+Flatten(es) == IF es = <<>> THEN <<>> ELSE es[1].b \o Flatten(Tail(es))
+RECURSIVE CatShown(_, _)
+CatShown(ops, k) == IF k > Len(ops) THEN <<>>
+                    ELSE (IF ops[k].op = "Tj" THEN ops[k].args[1].b
+                          ELSE IF ops[k].op = "TJ" THEN Flatten(SelectSeq(ops[k].args[1].v, LAMBDA e : e.t = "str"))
+                          ELSE <<>>) \o CatShown(ops, k + 1)
+ApShows(n) == LET c == ApOf(n) g == GroupOps(c.items) IN IF c.ok /\ g.ok THEN [ok |-> TRUE, cps |-> LET bs == CatShown(g.ops, 1) IN [i \in 1..Len(bs) |-> WinAnsiTable[bs[i] + 1]]] ELSE [ok |-> FALSE, cps |-> <<>>]
+FilledWidgetOK(d, a, f) ==
+  LET nref == ApRefOf(d)  form == Deref(nref) IN
+  /\ nref.t = "ref" /\ form.t = "stream" /\ IsName(Get(form, KI_Subtype), NI_Form)
+  /\ NumsAre(Deref(Get(form, KI_BBox)), <<0, 0, a.rect[3] - a.rect[1], a.rect[4] - a.rect[2]>>)
+  /\ ApShows(nref.n).ok /\ ApShows(nref.n).cps = f.fill
 
 AnnotOK(entry, a) ==
   LET d == Deref(entry) IN
@@ -115,6 +140,7 @@ AnnotOK(entry, a) ==
                          /\ NumsAre(Deref(il.v[1]), <<a.rect[1], a.rect[2], a.rect[3], a.rect[2], a.rect[3], a.rect[4]>>))
   /\ (a.k = "polygon" => NumsAre(Deref(Get(d, KI_Vertices)), <<a.rect[1], a.rect[2], a.rect[3], a.rect[2], a.rect[3], a.rect[4]>>))
   /\ (a.k = "widget" => WidgetOf(entry, d, FieldById(a.field)))
+  /\ (a.k = "widget" /\ Has(FieldById(a.field), "fill") => FilledWidgetOK(d, a, FieldById(a.field)))
 
 AnnotProblems ==
   UNION {IF x > Len(PageList) THEN {}
